@@ -205,6 +205,16 @@ def entry_points():
     E['compute_amp_consistency.direction'] = lambda v: compute_amp_consistency(_table(), direction=v)
     E['compute_period_consistency.direction'] = lambda v: compute_period_consistency(_table(), direction=v)
     E['recompute_edge.direction'] = lambda v: recompute_edge(_table(), 2, v)
+    # the same settings on degenerate inputs (tables of 1 / 2 rows, where per-cycle loops do not run)
+    E['compute_amp_consistency.rows2.direction'] = lambda v: compute_amp_consistency(_table().iloc[:2].reset_index(drop=True), direction=v)
+    E['compute_amp_consistency.rows1.direction'] = lambda v: compute_amp_consistency(_table().iloc[:1], direction=v)
+    E['compute_period_consistency.rows2.direction'] = lambda v: compute_period_consistency(_table().iloc[:2].reset_index(drop=True), direction=v)
+    E['compute_period_consistency.rows1.direction'] = lambda v: compute_period_consistency(_table().iloc[1:2], direction=v)
+    E['detect_bursts_cycles.rows1.monotonicity_threshold'] = lambda v: detect_bursts_cycles(_table().iloc[:1].copy(), monotonicity_threshold=v)
+    E['detect_bursts_cycles.rows0.amp_fraction_threshold'] = lambda v: detect_bursts_cycles(_table().iloc[:0].copy(), amp_fraction_threshold=v)
+    E['detect_bursts_amp.rows1.burst_fraction_threshold'] = lambda v: detect_bursts_amp(_table('amp').iloc[:1].copy(), burst_fraction_threshold=v)
+    E['check_min_burst_cycles.empty.min_n_cycles'] = lambda v: check_min_burst_cycles(np.zeros(0, dtype=bool), min_n_cycles=v)
+    E['check_min_burst_cycles.allfalse.min_n_cycles'] = lambda v: check_min_burst_cycles(np.zeros(4, dtype=bool), min_n_cycles=v)
     E['progress_bar.progress'] = lambda v: list(progress_bar(iter([1, 2]), v, 2))
     E['compute_features_2d.progress'] = lambda v: compute_features_2d(sigs2, 64, (6, 14), {'threshold_kwargs': dict(S.T0)}, n_jobs=1, progress=v)
     E['compute_features_3d.progress'] = lambda v: compute_features_3d(sigs3, 64, (6, 14), {'threshold_kwargs': dict(S.T0)}, n_jobs=1, progress=v)
@@ -270,8 +280,20 @@ def probes():
         for v, exp in (('both', 'ok'), ('next', 'ok'), ('last', 'ok'), ('x', 'VE'), ('Next', 'VE'), (None, 'VE')):
             P.append([e + '.direction', v, exp])
     for e in ('progress_bar', 'compute_features_2d', 'compute_features_3d', 'compute_features_3d.01', 'BycycleGroup.fit'):
-        for v, exp in ((None, 'ok'), ('tqdm', 'ok'), ('x', 'VE'), ('TQDM', 'VE'), ('bar', 'VE')):
+        for v, exp in ((None, 'ok'), ('tqdm', 'ok'), ('tqdm.notebook', 'ok'), ('x', 'VE'), ('TQDM', 'VE'), ('bar', 'VE'), ('tqdm.nb', 'VE'),
+                       ('tqdm.', 'VE'), ('tqdm.notebook.x', 'VE'), ('notebook', 'VE'), (' tqdm', 'VE'), ('tqdm_notebook', 'VE'), ('', 'VE'),
+                       (True, 'VE'), (0, 'VE')):
             P.append([e + '.progress', v, exp])
+    for e in ('compute_amp_consistency.rows2', 'compute_amp_consistency.rows1', 'compute_period_consistency.rows2', 'compute_period_consistency.rows1'):
+        for v, exp in (('both', 'ok'), ('next', 'ok'), ('last', 'ok'), ('x', 'VE'), ('Both', 'VE'), (None, 'VE')):
+            P.append([e + '.direction', v, exp])
+    for e in ('detect_bursts_cycles.rows1.monotonicity_threshold', 'detect_bursts_cycles.rows0.amp_fraction_threshold',
+              'detect_bursts_amp.rows1.burst_fraction_threshold'):
+        for v, exp in ((1.5, 'VE'), (-.5, 'VE'), (.5, 'ok'), (1, 'ok'), (0, 'ok')):
+            P.append([e, v, exp])
+    for e in ('check_min_burst_cycles.empty', 'check_min_burst_cycles.allfalse'):
+        for v, exp in ((-1, 'VE'), (-.5, 'VE'), (0, 'ok'), (3, 'ok')):
+            P.append([e + '.min_n_cycles', v, exp])
     for v, exp in ((0, 'VE'), (1, 'ok'), (2, 'VE'), (3, 'VE')):
         P.append(['Bycycle.fit.ndim', v, exp])
     for v, exp in ((0, 'VE'), (1, 'VE'), (2, 'ok'), (3, 'ok'), (4, 'VE')):
